@@ -192,13 +192,10 @@ pub fn def(ctx: &Ctx) -> PropertyDef {
         scenarios.push(seq_scenario(move |c| seq_spec(c, shards, w), &name));
     }
     for p in ilv_programs() {
-        scenarios.push(program_scenario(p, ilv_oracle(), move |_c| IlvCfg {
-            bounds: if quick { vec![0, 1, 2] } else { vec![0, 1, 2, 3] },
-            workers,
-            split_depth: 6,
-            time_cap_s: Some(if quick { 6.0 } else { 300.0 }),
-            max_executions: None,
-        }));
+        scenarios.push({
+                let nthreads = p.threads.len();
+                program_scenario(p, ilv_oracle(), move |c| crate::harness::ilv::tier_cfg(c, nthreads))
+            });
     }
     let mut assumptions = COMMON_ASSUMPTIONS.to_vec();
     assumptions.push("sweeps are driven by manual ticks at chosen clock instants (the timer is a seam); 'eventually removed' is checked in its bounded form: a sweep of the key's shard at an instant past the expiry removes it");
